@@ -352,6 +352,11 @@ def big_states():
         d[:, cols - 1] = 0  # a column holding only one value
         for c in (0, 2, k + 1):
             out.append(("2d", d, c))
+    # very wide 2-D states (17+ columns) whose trailing columns hold only the common value
+    for (n, cols, k) in ((4, 18, 3), (3, 20, 2)):
+        d = np.array([[(r + cc) % k if cc < cols - 3 and (r + cc) % 4 else 0 for cc in range(cols)] for r in range(n)], dtype=np.int64)
+        for c in (0, 1):
+            out.append(("2d", d, c))
     # wide 2-D states without a dominant value (32+ entries; the most frequent value is decided by a narrow margin)
     for (n, cols, k) in ((6, 8, 5), (12, 9, 4), (5, 12, 6)):
         d = np.array([[(r + 2 * cc + (next(g) % 2)) % k for cc in range(cols)] for r in range(n)], dtype=np.int64)
